@@ -1,11 +1,13 @@
 // h_tree - C02 C03 C04 C08 C09 C11 C12 C16 C20 over API programs and snapshots
 #include "common.hpp"
+#include "newguard.hpp"
 #include "nixutil.hpp"
 #include "tree_props.hpp"
 #include "c03.hpp"
 #include "c20.hpp"
 #include "c09.hpp"
 #include "c11.hpp"
+#include "c16.hpp"
 
 using namespace vf;
 
@@ -71,6 +73,7 @@ int main(int argc, char **argv) {
     else if (prop == "c20") rc = drive("C20", opt, c20::body);
     else if (prop == "c09") rc = drive("C09", opt, c09::body);
     else if (prop == "c11") rc = drive("C11", opt, c11::body);
+    else if (prop == "c16") rc = drive("C16", opt, c16::body);
     else if (prop == "c12") rc = drive("C12", opt, tp::c12);
     if (opt.own_work) rm_rf(opt.work);
     return rc;
